@@ -602,9 +602,18 @@ class Interp(object):
         if typ == "Task":
             eff = self.template(st.get("Parameters"), inp, ctx)
             res = st["Resource"]
-            if not res.startswith("arn:aws:rpcmessage:local::function:"):
+            long_form = re.match(r"^arn:aws:states:[^:]*:[^:]*:rpcmessage:invoke$", res) is not None
+            if long_form:
+                # the "long form" of a function call: Parameters name the function and carry the payload; the result is the
+                # documented dictionary of metadata around the function's own result
+                if not isinstance(eff, dict) or not isinstance(eff.get("FunctionName"), str) or not eff["FunctionName"].startswith("arn:aws:rpcmessage:local::function:"):
+                    raise Unspecified("long-form invoke without a function ARN")
+                fn = eff["FunctionName"].rsplit(":", 1)[1]
+                eff = eff.get("Payload", {})
+            elif not res.startswith("arn:aws:rpcmessage:local::function:"):
                 raise Unspecified("service integration (own check: C15)")
-            fn = res.rsplit(":", 1)[1]
+            else:
+                fn = res.rsplit(":", 1)[1]
             entered = self.t
             self.requests.append(dict(t=self.t, fn=fn, payload=copy.deepcopy(eff), state=name))
             if fn in getattr(self.task, "stateful", ()):
@@ -637,6 +646,8 @@ class Interp(object):
                 e = StateError(r[1], r[2] if len(r) > 2 else ""); e.task_raised = True
                 raise e
             result = copy.deepcopy(r[1])
+            if long_form:
+                result = {"ExecutedVersion": "$LATEST", "Payload": result, "SdkResponseMetadata": {"RequestId": ANY}, "StatusCode": 200}
             self.note_error_member(result, "task-result:" + name)
         elif typ == "Parallel":
             eff = self.template(st.get("Parameters"), inp, ctx)
